@@ -119,8 +119,12 @@ def run_check(prop, tier, seed, replay=None):
         axioms = ax.group(1).strip() if ax else '?'
         proofs['cmd'] += ' && coqchk -o -silent -R . Xeh Xeh.Props.%s' % prop.id
         proofs['coqchk'] = dict(ok=okc, axioms=axioms)
-        if not okc or axioms != '<none>':
-            proofs['failures'].append('coqchk: %s' % (outc[-600:] if not okc else 'axioms: ' + axioms))
+        listed = [] if axioms == '<none>' else [a.strip() for a in axioms.split('\n') if a.strip()]
+        allowed = lib.AXIOM_ALLOW if any(m in lib.AXIOM_ALLOW_FILES for m in lib.prop_files(prop.id)) else set()
+        stray = [a for a in listed if not any(a == b or a.endswith('.' + b) for b in allowed)]
+        proofs['coqchk']['axioms'] = ', '.join(listed) if listed else '<none>'
+        if not okc or axioms == '?' or stray:
+            proofs['failures'].append('coqchk: %s' % (outc[-600:] if not okc else 'axioms: ' + ', '.join(stray or [axioms])))
     model_exe = lib.build_model_driver()
 
     # ---- cases
